@@ -139,3 +139,13 @@ claimed["C05"] = (
     "namespaces connected; (3) per-namespace adapters, rooms and ack-id counters; a namespace broadcast reaches only that namespace's socket; disconnecting one namespace keeps the other's socket and rooms.",
     "Outside the claim: the client-side router (Manager.onParserFinish), interleavings of CONNECT replies (sequential here), everything JSON.",
     "5 (C05)")
+
+claimed["C16"] = (
+    "Bounded model checking of operation GROUPS (a narrow slice of the statement, which quantifies over all programs): for each group two goroutines perform one operation each - every pair of operations of the group - "
+    "under all interleavings at synchronisation points (preemption bound 2; server-socket group 1 quick / 2 thorough), and the executor's monitors must stay silent: happens-before data race on any heap cell, map or "
+    "slice element (vector clocks; confirmed natively with `go test -race`), a goroutine left blocked with nobody to release it, a mutex left held, unlock of an unlocked mutex, an escaping panic. Groups: G1 handlerStore "
+    "on/once/off/offAll/forEach/getAll with a handler that removes itself while dispatched; G2 eventHandlerStore on/once/off/offAll/getAll; G3 packetQueue add/get/reset/close (+ a parked poller); G7 serverSocket "
+    "Join/Leave/registerAckHandler/onAck/onClose/Disconnect/Rooms on a connected socket of the server world.",
+    "Outside the claim: everything not in a listed group (adapters under re-entrant callbacks, session-aware adapter, client socket, Engine.IO sockets, Manager), more than 2 goroutines, GOMAXPROCS effects, "
+    "the race detector's view of stdlib / third-party internals, unbounded programs. Code between two synchronisation operations is executed atomically, which is sound only if it is race-free - that proviso is what the race monitor checks.",
+    "5 (C16)")
